@@ -516,6 +516,12 @@ func (g *Gen) strct(depth int) *Node {
 		for len(comp.Tests) < 2 {
 			comp.Tests = append(comp.Tests, g.test(comp))
 		}
+		if r.Fork(0xa11b).P(75) {
+			// two pointers of one type with different demands: in a validated value they may share their pointee
+			n.Fields = append(n.Fields,
+				Field{Key: "pa", Node: &Node{Kind: KPtr, Elem: &Node{Kind: KInt, Tests: []TestSpec{{Builtin: "gt", N: 0}}}}},
+				Field{Key: "pb", Node: &Node{Kind: KPtr, Elem: &Node{Kind: KInt, Tests: []TestSpec{{Builtin: "gt", N: 100}}}}})
+		}
 	}
 	g.tests(n)
 	if depth == 0 {
